@@ -530,33 +530,6 @@ Proof.
     rewrite <- Hb1, <- Hb2. exact Vb.
 Qed.
 
-(* ------------------------------------------------------------------------------------------ *)
-(* checkpointed chunks                                                                        *)
-(* ------------------------------------------------------------------------------------------ *)
-Theorem checkpoint_only c s height chunk s' r :
-  fetch_chunk sha256 c s height chunk = (s', r) ->
-  (r = FStored <-> lookup (chunk_start height) (checkpoints c) = Some (dsha chunk)) /\
-  (r <> FStored -> s' = s) /\
-  (r = FStored -> io s' = write_at (HS * chunk_start height) chunk (io s)).
-Proof.
-  unfold fetch_chunk. destruct (lookup (chunk_start height) (checkpoints c)) as [e|] eqn:El.
-  - destruct (bytes_eqb (dsha chunk) e) eqn:Eb; intro H; inversion H; subst; clear H.
-    + apply bytes_eqb_eq in Eb. subst e. split; [tauto|]. split; [congruence|]. intros _. reflexivity.
-    + apply bytes_eqb_neq in Eb. split; [|split; [reflexivity | discriminate]].
-      split; [discriminate|]. intro H. inversion H. congruence.
-  - intro H; inversion H; subst; clear H. split; [|split; [reflexivity | discriminate]].
-    split; discriminate.
-Qed.
-
-Theorem ensure_chunk_only c s height chunk s' r :
-  ensure_chunk_at sha256 c s height chunk = (s', r) ->
-  s' <> s -> lookup (chunk_start height) (checkpoints c) = Some (dsha chunk).
-Proof.
-  unfold ensure_chunk_at. destruct (has_header sha256 c s height).
-  - intro H; inversion H; subst. congruence.
-  - intros H Hne. destruct (checkpoint_only c s height chunk s' r H) as (H1 & H2 & _).
-    destruct r; try (exfalso; apply Hne; apply H2; discriminate). apply H1. reflexivity.
-Qed.
 End Chain.
 
 (* ------------------------------------------------------------------------------------------ *)
@@ -598,6 +571,34 @@ Local Notation dsha := (dsha sha256).
 Local Notation scan := (scan sha256).
 Local Notation repair := (repair sha256).
 Local Notation repair_genesis_ok := (repair_genesis_ok sha256).
+
+(* ------------------------------------------------------------------------------------------ *)
+(* checkpointed chunks                                                                        *)
+(* ------------------------------------------------------------------------------------------ *)
+Theorem checkpoint_only c s height chunk s' r :
+  fetch_chunk sha256 c s height chunk = (s', r) ->
+  (r = FStored <-> lookup (chunk_start height) (checkpoints c) = Some (dsha chunk)) /\
+  (r <> FStored -> s' = s) /\
+  (r = FStored -> io s' = write_at (HS * chunk_start height) chunk (io s)).
+Proof.
+  unfold fetch_chunk. destruct (lookup (chunk_start height) (checkpoints c)) as [e|] eqn:El.
+  - destruct (bytes_eqb (dsha chunk) e) eqn:Eb; intro H; inversion H; subst; clear H.
+    + apply bytes_eqb_eq in Eb. subst e. split; [tauto|]. split; [congruence|]. intros _. reflexivity.
+    + apply bytes_eqb_neq in Eb. split; [|split; [reflexivity | discriminate]].
+      split; [discriminate|]. intro H. inversion H. congruence.
+  - intro H; inversion H; subst; clear H. split; [|split; [reflexivity | discriminate]].
+    split; discriminate.
+Qed.
+
+Theorem ensure_chunk_only c s height chunk s' r :
+  ensure_chunk_at sha256 c s height chunk = (s', r) ->
+  s' <> s -> lookup (chunk_start height) (checkpoints c) = Some (dsha chunk).
+Proof.
+  unfold ensure_chunk_at. destruct (has_header sha256 c s height).
+  - intro H; inversion H; subst. congruence.
+  - intros H Hne. destruct (checkpoint_only c s height chunk s' r H) as (H1 & H2 & _).
+    destruct r; try (exfalso; apply Hne; apply H2; discriminate). apply H1. reflexivity.
+Qed.
 
 (* each header's prev field is the hash of the header before it *)
 Fixpoint links (prev : bytes) (hs : list bytes) : Prop :=
@@ -641,6 +642,11 @@ Proof.
   split; [apply (H 0 x y); reflexivity|]. apply IH. intros i a b Ha Hb. apply (H (S i) a b); assumption.
 Qed.
 
+Lemma linked_iff l :
+  linked l <->
+  (forall i a b, nth_error l i = Some a -> nth_error l (S i) = Some b -> h_prev b = dsha a).
+Proof. split; [apply linked_nth | apply nth_linked]. Qed.
+
 Lemma scan_spec hs : forall prev h,
   match scan prev h hs with
   | None => links prev hs
@@ -676,7 +682,7 @@ Proof.
   intro T. unfold tight in T. rewrite <- T. rewrite visited_end_tight. unfold stored_chain.
   destruct (Nat.le_gt_cases (hsize s) start) as [H|H].
   - replace (Nat.max start (hsize s) - start) with 0 by lia.
-    rewrite (skipn_all2 (n:=start) (l:=chunks (hsize s) (io s))) by (rewrite chunks_length; lia). reflexivity.
+    rewrite (@skipn_all2 _ start (chunks (hsize s) (io s))) by (rewrite chunks_length; lia). reflexivity.
   - replace (Nat.max start (hsize s) - start) with (hsize s - start) by lia.
     rewrite <- chunks_skipn_list. f_equal. f_equal. lia.
 Qed.
@@ -693,6 +699,7 @@ Theorem repair_spec c s start : tight s ->
         io s' = firstn (HS * (k - 1)) (io s) /\ hsize s' = k - 1 /\ missing s' = missing s /\
         stored_chain s' = firstn (k - 1) H /\ tight s' /\
         linked (skipn start (firstn k H)) /\
+        (start = 0 -> 0 < k -> forall x, nth_error H 0 = Some x -> repair_genesis_ok c x = true) /\
         ((k = 0 /\ start = 0 /\ exists x, nth_error H 0 = Some x /\ repair_genesis_ok c x = false)
          \/ (start < k /\ exists x y, nth_error H (k - 1) = Some x /\ nth_error H k = Some y /\
                                       h_prev y <> dsha x))).
@@ -723,8 +730,8 @@ Proof.
     split; [lia|]. cbn [io hsize missing]. split; [reflexivity|]. split; [exact C1|]. split; [reflexivity|].
     split; [unfold stored_chain; cbn [io hsize]; rewrite C1; exact C2|].
     split; [unfold tight; cbn [io hsize]; reflexivity|].
-    split; [exact I|]. left. split; [reflexivity|]. split; [reflexivity|].
-    exists x. split; [|exact Eg]. rewrite <- (Hnth 0). reflexivity.
+    split; [exact I|]. split; [intros _ Hk; lia|]. left. split; [reflexivity|]. split; [reflexivity|].
+    exists x. split; [|exact Eg]. pose proof (Hnth 0) as Hn. change (0 + 0) with 0 in Hn. rewrite <- Hn. reflexivity.
   - pose proof (scan_spec r x (S start)) as Hsc. destruct (scan x (S start) r) as [k|].
     + destruct Hsc as (i & -> & Hi & L1 & L2).
       right. exists (S start + i). destruct (Cut (S start + i) ltac:(lia)) as [C1 C2].
@@ -732,15 +739,508 @@ Proof.
       split; [lia|]. cbn [io hsize missing]. split; [reflexivity|]. split; [exact C1|]. split; [reflexivity|].
       split; [unfold stored_chain; cbn [io hsize]; rewrite C1; exact C2|].
       split; [unfold tight; cbn [io hsize]; reflexivity|].
-      split.
+      split; [|split].
       * rewrite skipn_firstn_comm, Es. replace (S start + i - start) with (S i) by lia.
         cbn [firstn linked]. exact L1.
+      * intros -> _ y Hy. cbn [Nat.eqb andb] in Eg. apply negb_false_iff in Eg.
+        pose proof (Hnth 0) as Hn. change (0 + 0) with 0 in Hn. rewrite <- Hn in Hy. cbn [nth_error] in Hy.
+        inversion Hy; subst. exact Eg.
       * right. split; [lia|].
         destruct (first_break x r i L1 L2 Hi) as (a & b & Ha & Hb & Hne).
         exists a, b. rewrite (Hnth i) in Ha. split; [exact Ha|]. split; [|exact Hne].
         rewrite <- Hb. change (nth_error r i) with (nth_error (x :: r) (S i)). rewrite Hnth. f_equal. lia.
     + left. split; [reflexivity|]. split; [exact Hsc|].
       intros -> y Hy. cbn [Nat.eqb andb] in Eg. apply negb_false_iff in Eg.
-      rewrite <- (Hnth 0) in Hy. cbn in Hy. inversion Hy; subst. exact Eg.
+      pose proof (Hnth 0) as Hn. change (0 + 0) with 0 in Hn. rewrite <- Hn in Hy. cbn [nth_error] in Hy. inversion Hy; subst. exact Eg.
+Qed.
+
+(* ---- open() = load the file, repair ---- *)
+Definition open_start (c : cfg) (file : bytes) : nat :=
+  if Nat.eqb (length file mod HS) 0 then repair_start c else 0.
+
+Lemma load_repair_eq c file :
+  load_repair sha256 c file = repair c (mkSt file (length file / HS) []) (open_start c file).
+Proof. unfold load_repair, open_start. destruct (Nat.eqb (length file mod HS) 0); reflexivity. Qed.
+
+Lemma nth_error_firstn_some {A} j (l : list A) i x : nth_error (firstn j l) i = Some x -> nth_error l i = Some x.
+Proof.
+  revert l i. induction j as [|j IH]; intros l i H; [destruct i; discriminate|].
+  destruct l as [|y l]; [destruct i; discriminate|]. destruct i as [|i]; [exact H|].
+  cbn [firstn nth_error] in *. apply IH. exact H.
+Qed.
+
+Lemma nth_error_firstn_lt {A} j (l : list A) i : i < j -> nth_error (firstn j l) i = nth_error l i.
+Proof.
+  revert l i. induction j as [|j IH]; intros l i H; [lia|].
+  destruct l as [|y l]; [reflexivity|]. destruct i as [|i]; [reflexivity|].
+  cbn [firstn nth_error]. apply IH. lia.
+Qed.
+
+(* open() on ANY file content: the loaded chain is a prefix of the file, in whole headers unless nothing
+   was cut, and links from the height where the check starts; with the check starting at 0 its first
+   header is the genesis block *)
+Theorem open_linked_prefix c file :
+  let s := load_repair sha256 c file in
+  let H := chunks (length file / HS) file in
+  io s = firstn (length (io s)) file /\
+  (io s = file \/ length (io s) = HS * hsize s) /\
+  tight s /\ hsize s <= length file / HS /\ missing s = [] /\
+  stored_chain s = firstn (hsize s) H /\
+  linked (skipn (open_start c file) (stored_chain s)) /\
+  (open_start c file = 0 -> forall x, nth_error (stored_chain s) 0 = Some x -> repair_genesis_ok c x = true).
+Proof.
+  cbn zeta. rewrite load_repair_eq.
+  set (s0 := mkSt file (length file / HS) []).
+  assert (T : tight s0) by reflexivity.
+  assert (H0 : stored_chain s0 = chunks (length file / HS) file) by reflexivity.
+  assert (LH : length (chunks (length file / HS) file) = length file / HS) by apply chunks_length.
+  destruct (repair_spec c s0 (open_start c file) T) as [(-> & L & G) | (k & Hk & Hio & Hsz & Hm & Hsc & T' & L & G & _)].
+  - cbn [io hsize missing s0]. rewrite firstn_all. rewrite H0 in *.
+    repeat split; auto. rewrite firstn_all2 by lia. reflexivity.
+  - rewrite H0 in *. rewrite LH in Hk. cbn [io s0] in Hio.
+    assert (Hl : length (io (repair c s0 (open_start c file))) = HS * (k - 1)).
+    { rewrite Hio, firstn_length. assert (HS * (length file / HS) <= length file) by euc. unfold HS in *. lia. }
+    rewrite Hsz, Hsc, Hm. split; [rewrite Hl; exact Hio|]. split; [right; exact Hl|].
+    split; [exact T'|]. split; [lia|]. split; [reflexivity|]. split; [reflexivity|]. split.
+    + replace (firstn (k - 1) (chunks (length file / HS) file))
+        with (firstn (k - 1) (firstn k (chunks (length file / HS) file))) by (apply firstn_firstn_le; lia).
+      rewrite skipn_firstn_comm. apply linked_firstn. exact L.
+    + intros E x Hx. destruct k as [|k]; [change (0 - 1) with 0 in Hx; cbn [firstn nth_error] in Hx; discriminate|].
+      apply (G E ltac:(lia) x). apply nth_error_firstn_some in Hx. exact Hx.
+Qed.
+
+(* the part of repair_spec that says how much is dropped *)
+Theorem open_drops_from_first_break c file :
+  let s := load_repair sha256 c file in
+  let H := chunks (length file / HS) file in
+  let start := open_start c file in
+  (io s = file /\ hsize s = length file / HS)
+  \/ (exists k, k < length H /\ hsize s = k - 1 /\ io s = firstn (HS * (k - 1)) file /\
+        linked (skipn start (firstn k H)) /\
+        ((k = 0 /\ start = 0 /\ exists x, nth_error H 0 = Some x /\ repair_genesis_ok c x = false)
+         \/ (start < k /\ exists x y, nth_error H (k - 1) = Some x /\ nth_error H k = Some y /\
+                                      h_prev y <> dsha x))).
+Proof.
+  cbn zeta. rewrite load_repair_eq.
+  set (s0 := mkSt file (length file / HS) []).
+  assert (T : tight s0) by reflexivity.
+  destruct (repair_spec c s0 (open_start c file) T) as [(-> & _) | (k & Hk & Hio & Hsz & _ & _ & _ & L & _ & B)].
+  - left. split; reflexivity.
+  - right. exists k. auto.
+Qed.
+
+Lemma linked_skipn j l : linked l -> linked (skipn j l).
+Proof.
+  intro H. apply nth_linked. intros i a b Ha Hb. rewrite nth_error_skipn in Ha, Hb.
+  apply (linked_nth l H (j + i) a b Ha). rewrite <- Hb. f_equal. lia.
+Qed.
+
+(* a stored chain that links (and starts with the genesis block), cut at ANY byte offset m: exactly the
+   m / 112 whole headers are loaded, i.e. only the partial header is lost *)
+Theorem open_after_cut c hs m :
+  Forall (fun x : bytes => length x = HS) hs -> linked hs ->
+  (forall x, nth_error hs 0 = Some x -> repair_genesis_ok c x = true) ->
+  m <= length (concat hs) ->
+  load_repair sha256 c (firstn m (concat hs)) = mkSt (firstn m (concat hs)) (m / HS) [].
+Proof.
+  intros Hlen L G Hm.
+  set (file := firstn m (concat hs)).
+  assert (Lf : length file = m) by (unfold file; rewrite firstn_length; lia).
+  assert (Hq : m / HS <= length hs).
+  { rewrite (concat_length_HS hs Hlen) in Hm. clear - Hm. euc. }
+  assert (HH : chunks (length file / HS) file = firstn (m / HS) hs).
+  { rewrite Lf. transitivity (chunks (m / HS) (concat hs)).
+    - apply chunks_ext. unfold file. apply firstn_firstn_le. clear. euc.
+    - rewrite <- (chunks_firstn_list (m / HS) (length hs)) by exact Hq.
+      rewrite <- (app_nil_r (concat hs)). rewrite (chunks_concat hs Hlen []). reflexivity. }
+  destruct (open_drops_from_first_break c file) as [[Hio Hsz] | (k & Hk & _ & _ & _ & B)].
+  - destruct (open_linked_prefix c file) as (_ & _ & _ & _ & Hmi & _).
+    apply st_eq; cbn [io hsize missing]; [exact Hio | rewrite Hsz, Lf; reflexivity | exact Hmi].
+  - exfalso. rewrite HH in *. destruct B as [(_ & _ & x & Hx & Hg) | (Hsk & x & y & Hx & Hy & Hne)].
+    + apply nth_error_firstn_some in Hx. rewrite (G x Hx) in Hg. discriminate.
+    + apply nth_error_firstn_some in Hx. apply nth_error_firstn_some in Hy.
+      assert (Hk0 : k <> 0) by lia.
+      apply Hne. apply (linked_nth hs L (k - 1) x y Hx). rewrite <- Hy. f_equal. lia.
 Qed.
 End Repair.
+
+(* ------------------------------------------------------------------------------------------ *)
+(* compact targets                                                                            *)
+(* ------------------------------------------------------------------------------------------ *)
+Section Compact.
+Local Open Scope N_scope.
+
+Lemma pow2_pos k : 0 < 2 ^ k.
+Proof. apply N.neq_0_lt_0. apply N.pow_nonzero. lia. Qed.
+Lemma pow2_nz k : 2 ^ k <> 0.
+Proof. apply N.pow_nonzero. lia. Qed.
+
+Lemma csize_ge1 v : 1 <= csize v.
+Proof. unfold csize, py_bits, bin_len. lia. Qed.
+
+Lemma csize_bits v : bin_len v + 1 <= 8 * csize v.
+Proof. unfold csize, py_bits. lia. Qed.
+
+(* the value fits in 8*size - 1 bits: the compact mantissa never reaches the sign bit *)
+Lemma size_bound v : v < 2 ^ (8 * csize v - 1).
+Proof.
+  apply N.lt_le_trans with (2 ^ N.size v); [apply N.size_gt|].
+  apply N.pow_le_mono_r; [lia|]. pose proof (csize_bits v). unfold bin_len in *. lia.
+Qed.
+
+Definition mantissa (v : N) : N :=
+  if csize v <=? 3 then v * 2 ^ (8 * (3 - csize v)) else v / 2 ^ (8 * (csize v - 3)).
+
+Lemma mantissa_lt v : mantissa v < 2 ^ 23.
+Proof.
+  unfold mantissa. pose proof (size_bound v) as B. pose proof (csize_ge1 v) as G.
+  destruct (csize v <=? 3) eqn:E.
+  - apply N.leb_le in E.
+    replace (2 ^ 23) with (2 ^ (8 * csize v - 1) * 2 ^ (8 * (3 - csize v)))
+      by (rewrite <- N.pow_add_r; f_equal; lia).
+    apply N.mul_lt_mono_pos_r; [apply pow2_pos | exact B].
+  - apply N.leb_gt in E. apply N.div_lt_upper_bound; [apply pow2_nz|].
+    rewrite <- N.pow_add_r. replace (8 * (csize v - 3) + 23) with (8 * csize v - 1) by lia. exact B.
+Qed.
+
+Lemma testbit23_small c : c < 2 ^ 23 -> N.testbit c 23 = false.
+Proof.
+  intro H. destruct (N.eq_dec c 0) as [->|Hz]; [reflexivity|].
+  apply N.bits_above_log2. apply N.log2_lt_pow2; [lia | exact H].
+Qed.
+
+Lemma compact_raw_spec v : compact_raw v = (mantissa v, csize v).
+Proof.
+  unfold compact_raw.
+  assert (Hc : (if csize v <=? 3 then N.shiftl (low64 v) (8 * (3 - csize v))
+                else low64 (N.shiftr v (8 * (csize v - 3)))) = mantissa v).
+  { pose proof (mantissa_lt v) as M. unfold mantissa in *. unfold low64.
+    pose proof (size_bound v) as B.
+    destruct (csize v <=? 3) eqn:E.
+    - apply N.leb_le in E. rewrite N.shiftl_mul_pow2. f_equal. apply N.mod_small.
+      apply N.lt_le_trans with (2 ^ (8 * csize v - 1)); [exact B|].
+      apply N.pow_le_mono_r; lia.
+    - rewrite N.shiftr_div_pow2. apply N.mod_small.
+      apply N.lt_trans with (2 ^ 23); [exact M | reflexivity]. }
+  rewrite Hc. rewrite (testbit23_small _ (mantissa_lt v)). reflexivity.
+Qed.
+
+Lemma lor_parts c S : c < 2 ^ 23 ->
+  N.shiftr (N.lor c (N.shiftl S 24)) 24 = S /\ N.land (N.lor c (N.shiftl S 24)) 8388607 = c.
+Proof.
+  intro H. split.
+  - rewrite N.shiftr_lor. rewrite (N.shiftr_div_pow2 c), N.div_small.
+    + rewrite N.shiftr_shiftl_l by lia. rewrite N.sub_diag, N.shiftl_0_r. apply N.lor_0_l.
+    + apply N.lt_trans with (2 ^ 23); [exact H | reflexivity].
+  - change 8388607 with (N.ones 23). rewrite N.land_lor_distr_l, !N.land_ones.
+    rewrite N.mod_small by exact H.
+    rewrite N.shiftl_mul_pow2. replace (S * 2 ^ 24) with (S * 2 * 2 ^ 23) by (change (2 ^ 24) with (2 * 2 ^ 23); lia).
+    rewrite N.mod_mul by apply pow2_nz. apply N.lor_0_r.
+Qed.
+
+Definition cshift (v : N) : N := 8 * (csize v - 3).
+
+Lemma from_compact_compact v : from_compact (compact v) = N.shiftl (N.shiftr v (cshift v)) (cshift v).
+Proof.
+  unfold compact. rewrite compact_raw_spec. unfold from_compact.
+  destruct (lor_parts (mantissa v) (csize v) (mantissa_lt v)) as [-> ->].
+  unfold mantissa, cshift. destruct (csize v <=? 3) eqn:E.
+  - apply N.leb_le in E. replace (csize v - 3) with 0 by lia. rewrite N.mul_0_r, N.shiftr_0_r, N.shiftl_0_r.
+    rewrite N.shiftr_div_pow2. apply N.div_mul. apply pow2_nz.
+  - rewrite N.shiftl_mul_pow2, N.shiftr_div_pow2, N.shiftl_mul_pow2. reflexivity.
+Qed.
+
+Theorem compact_facts v :
+  (* the sign bit is never set, the mantissa has 23 bits *)
+  N.testbit (compact v) 23 = false /\
+  N.land (compact v) 8388607 < 2 ^ 23 /\ N.shiftr (compact v) 24 = csize v /\
+  (* decoding gives the value with its low bits cleared *)
+  from_compact (compact v) = N.shiftl (N.shiftr v (cshift v)) (cshift v) /\
+  from_compact (compact v) <= v /\
+  v < from_compact (compact v) + 2 ^ cshift v /\
+  N.shiftr (from_compact (compact v)) (cshift v) = N.shiftr v (cshift v) /\
+  (* values that fit in 23 bits are exact *)
+  (v < 2 ^ 23 -> from_compact (compact v) = v) /\
+  (* re-encoding is stable *)
+  compact (from_compact (compact v)) = compact v /\
+  (* the two assert statements hold for every 256-bit value *)
+  (v < 2 ^ 256 -> compact_asserts v = true /\ compact v < 2 ^ 32).
+Proof.
+  pose proof (from_compact_compact v) as F.
+  pose proof (mantissa_lt v) as M.
+  destruct (lor_parts (mantissa v) (csize v) M) as [P1 P2].
+  assert (C : compact v = N.lor (mantissa v) (N.shiftl (csize v) 24)).
+  { unfold compact. rewrite compact_raw_spec. reflexivity. }
+  set (sh := cshift v) in *.
+  assert (Fv : from_compact (compact v) = 2 ^ sh * (v / 2 ^ sh)).
+  { rewrite F, N.shiftl_mul_pow2, N.shiftr_div_pow2. lia. }
+  pose proof (N.mul_div_le v (2 ^ sh) (pow2_nz sh)) as Hle.
+  pose proof (N.mod_lt v (2 ^ sh) (pow2_nz sh)) as Hlt.
+  pose proof (N.div_mod v (2 ^ sh) (pow2_nz sh)) as Hdm.
+  split; [|split; [|split; [|split; [|split; [|split; [|split; [|split; [|split]]]]]]]].
+  - rewrite C, N.lor_spec, (testbit23_small _ M), N.shiftl_spec_low by lia. reflexivity.
+  - rewrite C, P2. exact M.
+  - rewrite C. exact P1.
+  - exact F.
+  - rewrite Fv. exact Hle.
+  - rewrite Fv. lia.
+  - rewrite F. rewrite N.shiftr_shiftl_l by lia. rewrite N.sub_diag. apply N.shiftl_0_r.
+  - intro Hv. rewrite F. unfold sh, cshift.
+    assert (csize v <= 3).
+    { unfold csize, py_bits, bin_len.
+      assert (N.size v <= 23).
+      { destruct (N.eq_dec v 0) as [->|Hz]; [cbn; lia|].
+        rewrite N.size_log2 by exact Hz. apply N.le_succ_l. apply N.log2_lt_pow2; [lia | exact Hv]. }
+      lia. }
+    replace (csize v - 3) with 0 by lia. rewrite N.mul_0_r, N.shiftr_0_r. apply N.shiftl_0_r.
+  - (* stability: same size, same mantissa *)
+    set (w := from_compact (compact v)) in *.
+    assert (Hs : csize w = csize v).
+    { unfold csize, py_bits, bin_len.
+      destruct (N.eq_dec (v / 2 ^ sh) 0) as [Hq|Hq].
+      - (* v below 2^sh: only possible when sh = 0 and v = 0 *)
+        assert (Hv : v < 2 ^ sh) by (rewrite Hq in Hdm; lia).
+        unfold sh, cshift in Hv. destruct (N.le_gt_cases (csize v) 3) as [H3|H3].
+        + replace (csize v - 3) with 0 in Hv by lia. cbn in Hv. assert (v = 0) by lia. subst v.
+          rewrite Fv, Hq, N.mul_0_r. reflexivity.
+        + exfalso. pose proof (csize_bits v) as B1. unfold csize, py_bits, bin_len in *.
+          assert (Hz : v <> 0) by (intro; subst v; cbn in H3; lia).
+          rewrite N.size_log2 in * by exact Hz.
+          assert (N.log2 v < 8 * ((N.max 1 (N.succ (N.log2 v)) + 1 + 7) / 8 - 3)).
+          { apply N.log2_lt_pow2; [lia | exact Hv]. }
+          lia.
+      - assert (Hw : w <> 0) by (rewrite Fv; pose proof (pow2_nz sh); nia).
+        assert (Hz : v <> 0) by (intro; subst v; rewrite N.div_0_l in Hq by apply pow2_nz; congruence).
+        rewrite !N.size_log2 by assumption.
+        assert (N.log2 w = N.log2 v); [|congruence].
+        apply N.le_antisymm; [apply N.log2_le_mono; rewrite Fv; exact Hle|].
+        (* 2^(log2 v) <= v, hence 2^(log2 v) <= w as w keeps the bits above sh and log2 v >= sh *)
+        assert (Hsh : sh <= N.log2 v).
+        { apply N.log2_le_pow2; [lia|]. apply N.le_trans with (2 ^ sh * (v / 2 ^ sh)); [|exact Hle].
+          assert (1 <= v / 2 ^ sh) by lia. nia. }
+        apply N.log2_le_pow2; [lia|].
+        rewrite Fv. replace (N.log2 v) with (sh + (N.log2 v - sh)) by lia. rewrite N.pow_add_r.
+        apply N.mul_le_mono_l.
+        apply N.div_le_lower_bound; [apply pow2_nz|].
+        rewrite <- N.pow_add_r. replace (sh + (N.log2 v - sh)) with (N.log2 v) by lia.
+        apply N.log2_spec. lia. }
+    unfold compact. rewrite !compact_raw_spec. rewrite Hs. f_equal.
+    unfold mantissa. rewrite Hs. fold sh.
+    destruct (csize v <=? 3) eqn:E.
+    + apply N.leb_le in E. f_equal. rewrite Fv. unfold sh, cshift. replace (csize v - 3) with 0 by lia.
+      rewrite N.mul_0_r. cbn [N.pow]. rewrite N.div_1_r. lia.
+    + unfold cshift in sh. fold sh. rewrite Fv. rewrite N.mul_comm, N.div_mul by apply pow2_nz. reflexivity.
+  - intro Hv.
+    assert (Hs : csize v <= 33).
+    { unfold csize, py_bits, bin_len.
+      assert (N.size v <= 256).
+      { destruct (N.eq_dec v 0) as [->|Hz]; [cbn; lia|].
+        rewrite N.size_log2 by exact Hz. apply N.le_succ_l. apply N.log2_lt_pow2; [lia | exact Hv]. }
+      lia. }
+    split.
+    + unfold compact_asserts. rewrite compact_raw_spec.
+      apply andb_true_iff. split; [apply N.ltb_lt; exact M | apply N.ltb_lt; lia].
+    + rewrite C. rewrite <- (N.lxor_lor (mantissa v) (N.shiftl (csize v) 24)).
+      * rewrite <- N.add_nocarry_lxor.
+        -- rewrite N.shiftl_mul_pow2. change (2 ^ 32) with (256 * 2 ^ 24). change (2 ^ 23) with 8388608 in M.
+           change (2 ^ 24) with 16777216. lia.
+        -- apply N.bits_inj. intro n. rewrite N.land_spec, N.bits_0.
+           destruct (N.lt_ge_cases n 24) as [Hn|Hn].
+           ++ rewrite N.shiftl_spec_low by exact Hn. apply andb_false_r.
+           ++ rewrite N.bits_above_log2; [reflexivity|].
+              destruct (N.eq_dec (mantissa v) 0) as [->|Hz]; [cbn; lia|].
+              apply N.lt_le_trans with 23; [|lia]. apply N.log2_lt_pow2; [lia | exact M].
+      * apply N.bits_inj. intro n. rewrite N.land_spec, N.bits_0.
+        destruct (N.lt_ge_cases n 24) as [Hn|Hn].
+        -- rewrite N.shiftl_spec_low by exact Hn. apply andb_false_r.
+        -- rewrite N.bits_above_log2; [reflexivity|].
+           destruct (N.eq_dec (mantissa v) 0) as [->|Hz]; [cbn; lia|].
+           apply N.lt_le_trans with 23; [|lia]. apply N.log2_lt_pow2; [lia | exact M].
+Qed.
+End Compact.
+
+(* ------------------------------------------------------------------------------------------ *)
+(* 112-byte header codec                                                                      *)
+(* ------------------------------------------------------------------------------------------ *)
+Section Codec.
+Lemma slice_app off len (pre x post : bytes) : length pre = off -> length x = len ->
+  slice off len (pre ++ x ++ post) = x.
+Proof. intros H1 H2. unfold slice. rewrite skipn_eq_app by exact H1. apply firstn_eq_app. exact H2. Qed.
+
+Lemma split_at (n : nat) (b : bytes) : b = firstn n b ++ skipn n b.
+Proof. symmetry. apply firstn_skipn. Qed.
+
+Lemma header_split r : length r = 112 ->
+  r = slice 0 4 r ++ slice 4 32 r ++ slice 36 32 r ++ slice 68 32 r ++ slice 100 4 r ++ slice 104 4 r ++ slice 108 4 r.
+Proof.
+  intro L. unfold slice. rewrite skipn_O.
+  rewrite (split_at 4 r) at 1. f_equal.
+  rewrite (split_at 32 (skipn 4 r)) at 1. f_equal. rewrite skipn_skipn. change (4 + 32) with 36.
+  rewrite (split_at 32 (skipn 36 r)) at 1. f_equal. rewrite skipn_skipn. change (36 + 32) with 68.
+  rewrite (split_at 32 (skipn 68 r)) at 1. f_equal. rewrite skipn_skipn. change (68 + 32) with 100.
+  rewrite (split_at 4 (skipn 100 r)) at 1. f_equal. rewrite skipn_skipn. change (100 + 4) with 104.
+  rewrite (split_at 4 (skipn 104 r)) at 1. f_equal. rewrite skipn_skipn. change (104 + 4) with 108.
+  rewrite firstn_all2; [reflexivity|]. rewrite skipn_length. lia.
+Qed.
+
+Lemma slice_length off len (r : bytes) : off + len <= length r -> length (slice off len r) = len.
+Proof. intro H. unfold slice. rewrite firstn_length, skipn_length. lia. Qed.
+
+Lemma le4 (x : bytes) : length x = 4 -> (le_decode x < 2 ^ 32)%N /\ le_encode 4 (le_decode x) = x.
+Proof.
+  intro L. split.
+  - pose proof (le_decode_lt x) as H. rewrite L in H. exact H.
+  - rewrite <- L. apply le_encode_decode.
+Qed.
+
+(* every 112-byte string is the serialisation of the header it deserialises to *)
+Theorem codec_bytes r : length r = HS ->
+  exists h, deserialize r = Some h /\ serialize h = Some r.
+Proof.
+  unfold HS. intro L. unfold deserialize. rewrite L. unfold HS. cbn [Nat.ltb Nat.leb].
+  eexists. split; [reflexivity|]. unfold serialize. cbn [version timestamp bits nonce prev_block_hash merkle_root claim_trie_root].
+  unfold h_version, h_time, h_bits, h_nonce, h_prev, h_merkle, h_claim.
+  destruct (le4 (slice 0 4 r)) as [V1 V2]; [apply slice_length; lia|].
+  destruct (le4 (slice 100 4 r)) as [T1 T2]; [apply slice_length; lia|].
+  destruct (le4 (slice 104 4 r)) as [B1 B2]; [apply slice_length; lia|].
+  destruct (le4 (slice 108 4 r)) as [N1 N2]; [apply slice_length; lia|].
+  apply N.ltb_lt in V1, T1, B1, N1. rewrite V1, T1, B1, N1. cbn [andb].
+  rewrite V2, T2, B2, N2, !rev_involutive. f_equal. symmetry. apply header_split. exact L.
+Qed.
+
+(* every well-formed header survives serialise / deserialise *)
+Theorem codec_header h :
+  (version h < 2 ^ 32)%N -> (timestamp h < 2 ^ 32)%N -> (bits h < 2 ^ 32)%N -> (nonce h < 2 ^ 32)%N ->
+  length (prev_block_hash h) = 32 -> length (merkle_root h) = 32 -> length (claim_trie_root h) = 32 ->
+  exists r, serialize h = Some r /\ length r = HS /\ deserialize r = Some h.
+Proof.
+  intros V T B N P M C. unfold serialize.
+  apply N.ltb_lt in V as V', T as T', B as B', N as N'. rewrite V', T', B', N'. cbn [andb].
+  eexists. split; [reflexivity|].
+  assert (L4 : forall v, length (le_encode 4 v) = 4) by (intro; apply le_encode_length).
+  assert (LL : length (le_encode 4 (version h) ++ rev (prev_block_hash h) ++ rev (merkle_root h) ++
+                       rev (claim_trie_root h) ++ le_encode 4 (timestamp h) ++ le_encode 4 (bits h) ++
+                       le_encode 4 (nonce h)) = 112).
+  { rewrite !app_length, !rev_length, !L4, P, M, C. reflexivity. }
+  split; [exact LL|]. unfold deserialize. rewrite LL. unfold HS. cbn [Nat.ltb Nat.leb].
+  set (A := le_encode 4 (version h)). set (Pb := rev (prev_block_hash h)). set (Mb := rev (merkle_root h)).
+  set (Cb := rev (claim_trie_root h)). set (Tb := le_encode 4 (timestamp h)). set (Bb := le_encode 4 (bits h)).
+  set (Nb := le_encode 4 (nonce h)).
+  assert (LA : length A = 4) by apply L4. assert (LT : length Tb = 4) by apply L4.
+  assert (LB : length Bb = 4) by apply L4. assert (LN : length Nb = 4) by apply L4.
+  assert (LP : length Pb = 32) by (unfold Pb; rewrite rev_length; exact P).
+  assert (LM : length Mb = 32) by (unfold Mb; rewrite rev_length; exact M).
+  assert (LC : length Cb = 32) by (unfold Cb; rewrite rev_length; exact C).
+  unfold h_version, h_time, h_bits, h_nonce, h_prev, h_merkle, h_claim.
+  assert (E1 : slice 0 4 (A ++ Pb ++ Mb ++ Cb ++ Tb ++ Bb ++ Nb) = A).
+  { apply (slice_app 0 4 [] A); [reflexivity | exact LA]. }
+  assert (E2 : slice 4 32 (A ++ Pb ++ Mb ++ Cb ++ Tb ++ Bb ++ Nb) = Pb).
+  { apply (slice_app 4 32 A Pb); assumption. }
+  assert (E3 : slice 36 32 (A ++ Pb ++ Mb ++ Cb ++ Tb ++ Bb ++ Nb) = Mb).
+  { rewrite (app_assoc A Pb). apply slice_app; [rewrite app_length; lia | exact LM]. }
+  assert (E4 : slice 68 32 (A ++ Pb ++ Mb ++ Cb ++ Tb ++ Bb ++ Nb) = Cb).
+  { rewrite (app_assoc A Pb), (app_assoc (A ++ Pb) Mb). apply slice_app; [rewrite !app_length; lia | exact LC]. }
+  assert (E5 : slice 100 4 (A ++ Pb ++ Mb ++ Cb ++ Tb ++ Bb ++ Nb) = Tb).
+  { rewrite (app_assoc A Pb), (app_assoc (A ++ Pb) Mb), (app_assoc ((A ++ Pb) ++ Mb) Cb).
+    apply slice_app; [rewrite !app_length; lia | exact LT]. }
+  assert (E6 : slice 104 4 (A ++ Pb ++ Mb ++ Cb ++ Tb ++ Bb ++ Nb) = Bb).
+  { rewrite (app_assoc A Pb), (app_assoc (A ++ Pb) Mb), (app_assoc ((A ++ Pb) ++ Mb) Cb),
+      (app_assoc (((A ++ Pb) ++ Mb) ++ Cb) Tb).
+    apply slice_app; [rewrite !app_length; lia | exact LB]. }
+  assert (E7 : slice 108 4 (A ++ Pb ++ Mb ++ Cb ++ Tb ++ Bb ++ Nb) = Nb).
+  { rewrite (app_assoc A Pb), (app_assoc (A ++ Pb) Mb), (app_assoc ((A ++ Pb) ++ Mb) Cb),
+      (app_assoc (((A ++ Pb) ++ Mb) ++ Cb) Tb), (app_assoc ((((A ++ Pb) ++ Mb) ++ Cb) ++ Tb) Bb).
+    rewrite <- (app_nil_r Nb) at 1. apply slice_app; [rewrite !app_length; lia | exact LN]. }
+  rewrite E1, E2, E3, E4, E5, E6, E7. unfold A, Pb, Mb, Cb, Tb, Bb, Nb.
+  rewrite !rev_involutive, !le_decode_encode by assumption.
+  destruct h; reflexivity.
+Qed.
+End Codec.
+
+(* ------------------------------------------------------------------------------------------ *)
+(* the two repaired defects: models of the OLD behaviour and machine-checked witnesses         *)
+(* ------------------------------------------------------------------------------------------ *)
+Section Refuted.
+(* a toy hash is enough to exhibit the shape: "hash" = the first 32 bytes *)
+Definition toy (x : bytes) : bytes := firstn 32 x.
+Definition toy_header (v : byte) (prev : bytes) : bytes := [v; x00; x00; x00] ++ prev ++ repeat x00 76.
+
+(* OLD connect (before 64a9e0b): _write only -- no truncation, _size = max(old, end) *)
+Definition connect_old (sha256 sha512 rmd160 : bytes -> bytes) (c : cfg) (s : st) (start : nat) (batch : bytes)
+  : st * cres :=
+  if negb (Nat.eqb (Nat.modulo (length batch) HS) 0) then (s, CAssertion)
+  else if Nat.ltb (hsize s) start then (s, CIndexError)
+  else
+    let n := Nat.div (length batch) HS in
+    match validate sha256 sha512 rmd160 c (below2 (io s) start) (below1 (io s) start) (chunks n batch) with
+    | Some e => (s, CInvalid e)
+    | None => match batch with
+              | [] => (s, COk 0)
+              | _ => (do_write s start batch, COk n)
+              end
+    end.
+
+Definition w_cfg : cfg := mkCfg 0 None false [].
+Definition wA0 := toy_header x00 (repeat x00 32).
+Definition wA1 := toy_header x01 (toy wA0).
+Definition wA2 := toy_header x02 (toy wA1).
+Definition wA3 := toy_header x03 (toy wA2).
+Definition wB1 := toy_header x09 (toy wA0).
+(* chain A (3 headers); a 1-header fork B on A0 (shorter than A's tail); A's continuation at the old length *)
+Definition w_ops : list (nat * bytes) := [(0, wA0 ++ wA1 ++ wA2); (1, wB1); (3, wA3)].
+
+Definition run_log (conn : cfg -> st -> nat -> bytes -> st * cres) (ops : list (nat * bytes)) : st * list cres :=
+  fold_left (fun sr op => let '(s', r) := conn w_cfg (fst sr) (fst op) (snd op) in (s', snd sr ++ [r]))
+            ops (mkSt [] 0 [], []).
+
+(* OLD: all three batches are accepted, 4 headers are counted, and the stored chain [0,4) -- which ends
+   with the most recently connected batch -- has a broken prev-hash link (A2 on top of B1) *)
+Lemma chain_invariant_old_refuted :
+  let r := run_log (connect_old toy toy toy) w_ops in
+  snd r = [COk 3; COk 1; COk 1] /\ hsize (fst r) = 4 /\
+  validate toy toy toy w_cfg None None (chunks 4 (io (fst r))) = Some RPrev.
+Proof. vm_compute. repeat split. Qed.
+
+(* NEW: the fork cuts the chain to 2 headers and the stale continuation is refused *)
+Lemma chain_invariant_new_witness :
+  let r := run_log (connect toy toy toy) w_ops in
+  snd r = [COk 3; COk 1; CIndexError] /\ hsize (fst r) = 2 /\
+  validate toy toy toy w_cfg None None (chunks 2 (io (fst r))) = None.
+Proof. vm_compute. repeat split. Qed.
+
+(* OLD repair (before 54b8776): `range(start, self.height, 36)` *)
+Definition visited_end_old (start sz whole : nat) : nat :=
+  if Nat.ltb (S start) sz
+  then Nat.min whole (start + BATCH * (S (Nat.div (sz - 2 - start) BATCH)))
+  else start.
+
+Definition repair_old (sha256 : bytes -> bytes) (c : cfg) (s : st) (start : nat) : st :=
+  let whole := Nat.div (length (io s)) HS in
+  let vend := visited_end_old start (hsize s) whole in
+  let hs := chunks (vend - start) (skipn (HS * start) (io s)) in
+  match repair_fail sha256 c start hs with
+  | None => s
+  | Some k => let io' := firstn (HS * (k - 1)) (io s) in
+              mkSt io' (Nat.div (length io') HS) (missing s)
+  end.
+
+Fixpoint toy_chain (n : nat) (i : N) (prev : bytes) : list bytes :=
+  match n with
+  | O => []
+  | S n' => let h := toy_header (byte_of_N i) prev in h :: toy_chain n' (i + 1)%N (toy h)
+  end.
+
+(* 36 linked headers and a garbage tip: 37 = 0 + 36 + 1 *)
+Definition w_file : bytes := concat (toy_chain 36 0 (repeat x00 32)) ++ repeat xff 112.
+Definition w_rcfg : cfg := mkCfg 0 (Some (toy (toy_header x00 (repeat x00 32)))) false [].
+
+Lemma repair_old_refuted :
+  let s := mkSt w_file 37 [] in
+  (* the link into the tip is broken ... *)
+  repair_fail toy w_rcfg 0 (chunks 37 w_file) = Some 36 /\
+  (* ... the old loop never read the tip and kept all 37 headers ... *)
+  hsize (repair_old toy w_rcfg s 0) = 37 /\
+  (* ... the repaired loop drops from one before the damaged header *)
+  hsize (repair toy w_rcfg s 0) = 35.
+Proof. vm_compute. repeat split. Qed.
+End Refuted.
